@@ -64,6 +64,9 @@ func KVs(r R, names []string, n int) []sl.KV {
 // Request builds a structured request with colliding names across collections.
 func Request(r R) *sl.Req {
 	req := &sl.Req{Method: Pick(r, []string{"GET", "POST", "PUT"}), Path: Pick(r, []string{"/", "/p", "/a/b.php", "/Index.html"}), Status: Pick(r, []int{200, 200, 404, 500, 302})}
+	if Chance(r, 0.3) {
+		req.RawQuery = Pick(r, []string{"a=1", "id=7&ID=8", "foo=bar&Foo=Bar", "x1=abc&q=a", "ab=ab&AB=AB"})
+	}
 	req.Get = KVs(r, NamePool, r.IntN(6))
 	req.Post = KVs(r, NamePool, r.IntN(5))
 	nh := r.IntN(5)
